@@ -231,7 +231,8 @@ def main_check(prop, tier, seed, n_runs=None, workers=None, time_cap=None):
             with open(path, "w") as f:
                 json.dump({"property": prop, "engine": P["engine"], "seed": seed, "run": r["run"], "signature": sig,
                            "violation": res_min["violation"], "digest": res_min["digest"], "spec": spec_min,
-                           "original_ops": len(r["spec"]["ops"]), "minimised_ops": len(spec_min["ops"]),
+                           "original_ops": len(r["spec"].get("ops", r["spec"].get("cases", []))),
+                           "minimised_ops": len(spec_min.get("ops", spec_min.get("cases", []))),
                            "count_in_batch": len(rs)}, f, indent=1, default=str)
             rc, out = replay_in_fresh_process(path)
             if rc != 1 or "signature=" + sig not in out:
@@ -275,7 +276,7 @@ def main_check(prop, tier, seed, n_runs=None, workers=None, time_cap=None):
                 sp = r["spec"]
                 samples.append({"run": r["run"], "digest": r["digest"],
                                 "world": summarise_world(sp.get("world")) if sp.get("world") else sp.get("summary"),
-                                "config": sp.get("config"), "ops": sp.get("ops", sp.get("commands"))[:10],
+                                "config": sp.get("config"), "ops": (sp.get("ops") or sp.get("cases") or [])[:10],
                                 "pre_ops": sp.get("pre_ops"), "log_head": r.get("log_head")})
         zero_probes = [p for p in P.get("expected_probes", []) if not stats.get(p) and not fired.get(p)]
         coverage = {
